@@ -1,8 +1,27 @@
 #!/bin/sh
-# Runs the repository's pinned baseline with the verif guard OFF (default toolchain, no tags).
+# Runs the repository's pinned baseline with the verif guard OFF (default toolchain, no tags)
+# exactly as /root/.vp/BASELINE.json does (go test -json per module), prints the JSON stream on
+# stdout, and exits 0 iff every test of BASELINE.json's stable_pass list passed.
 export GOFLAGS=-mod=mod GOPROXY=off GOSUMDB=off GOTOOLCHAIN=local
-rc=0
+OUT=$(mktemp /tmp/baseline_off.XXXXXX)
 for m in dnsrocks dnsrocks/go-cdb-mods; do
-  (cd /repo/$m && go test -mod=mod -vet=off -count=1 -timeout 25m ./...) || rc=1
+  (cd /repo/$m && go test -mod=mod -json -vet=off -count=1 -timeout 25m ./...) >> "$OUT" 2>/dev/null
 done
+cat "$OUT"
+python3 - "$OUT" <<'PY'
+import json, sys
+passed=set()
+for line in open(sys.argv[1], errors='replace'):
+    try: ev=json.loads(line)
+    except Exception: continue
+    if ev.get('Action')=='pass' and ev.get('Test'):
+        passed.add(ev['Package']+'::'+ev['Test'])
+want=set(json.load(open('/root/.vp/BASELINE.json'))['stable_pass'])
+missing=sorted(want-passed)
+sys.stderr.write('baseline_off: %d/%d stable tests passed\n' % (len(want)-len(missing), len(want)))
+for m in missing[:20]: sys.stderr.write('  MISSING '+m+'\n')
+sys.exit(1 if missing else 0)
+PY
+rc=$?
+rm -f "$OUT"
 exit $rc
